@@ -150,7 +150,7 @@ class Side:
 
     def var(self, name):
         n = name.lower()
-        if self.lang == 'c':
+        if self.lang == 'c' and name not in getattr(self, 'keep_underscore', ()):
             n = n.rstrip('_') or n
         if self.lang == 'f' and n in ('pi',) and n in self.common:
             return SYM_PI
